@@ -214,7 +214,7 @@ def r4_3(ctx):
                     ctx.violation(construct(g, "non-boolean"), g.loc(), f"{cls}.{name} returns {r!r}")
                 continue
             trues += 1
-            member = any(v[0] is True and " In " in k and mp in k for k, v in st.facts.items())
+            member = any(mp in k and ((v[0] is True and " In " in k) or (v[0] is False and " NotIn " in k)) for k, v in st.facts.items())
             pos = False
             for sym, (lo, hi) in st.bounds.items():
                 if mp in sym and lo is not None and lo > 0:
